@@ -10,7 +10,7 @@ for d in seeded/*/; do
   if [ $# -gt 0 ]; then m=0; for p in "$@"; do case $id in $p*) m=1;; esac; done; [ $m = 1 ] || continue; fi
   prop=$(python3 -c "import json;print(json.load(open('$d/meta.json'))['breaks_property'])")
   git -C $wt checkout -q -- . ; git -C $wt apply $PWD/$d/patch.diff || { echo "$id: PATCH DOES NOT APPLY"; continue; }
-  out=$(VERIF_REPO=$wt VERIF_BUILD=/tmp/seedrun-vb VERIF_SEED=${VERIF_SEED:-0} ./check $prop quick 2>&1); rc=$?
+  out=$(VERIF_EVIDENCE_DIR=/tmp/seed-evidence VERIF_REPO=$wt VERIF_BUILD=/tmp/seedrun-vb VERIF_SEED=${VERIF_SEED:-0} ./check $prop quick 2>&1); rc=$?
   echo "$id: $prop quick rc=$rc $(echo "$out" | grep -A1 VIOLATION | sed -n 2p | cut -c1-160)"
 done
 git -C /repo worktree remove --force $wt; rm -rf /tmp/seedrun-vb
